@@ -13,7 +13,7 @@ class C14(CoordMixin, Prop):
     fixed_prefix = 1
     quick_budget = 2500
     thorough_budget = 40000
-    all_branches = ["x:blocked", "x:unknown", "x:reentrant", "x:preempted", "x:cp0-fail", "x:cp1-fail", "x:cp2-fail",
+    all_branches = ["cell:ok", "cell:blocked", "cell:post-raise", "x:blocked", "x:unknown", "x:reentrant", "x:preempted", "x:cp0-fail", "x:cp1-fail", "x:cp2-fail",
                     "x:cp3-fail", "x:work-raise", "x:val-fail", "x:commit", "acq:acquired", "acq:blocked",
                     "acq:reentrant", "acq:preempted", "rel:0", "rel:1", "wd:timeout", "x:killed-in-work"]
     assumptions = [
@@ -80,7 +80,8 @@ class C14(CoordMixin, Prop):
         # malformed stream (ids reused while active, unknown tokens)
         for i in range(max(5, n // 100)):
             lines = ["cfg none none none priority", "res 1 0", "start 1 1", "acq 1 1",
-                     rng.choice(["start 1 3", "exec 1 2 1 bbbb n:ok yes", "frob 1", "acq 1", "res 1 1", "acq 7 1"]),
+                     rng.choice(["start 1 3", "exec 1 2 1 bbbb n:ok yes", "frob 1", "acq 1", "res 1 1", "acq 7 1",
+                                "cell 1 2 1 bbbb n:ok yes", "cell 1 2 1 bbbb n:ok yes ok"]),
                      "acq 1 1", "complete 1"]
             yield {"lines": lines, "note": "malformed"}
         for i in range(n):   # the bulk: random histories
@@ -101,14 +102,21 @@ class C14(CoordMixin, Prop):
         faults = [("bbbb", "n:ok", "yes"), ("bnbb", "n:ok", "yes"), ("bxbb", "n:ok", "yes"), ("bbnb", "n:ok", "yes"),
                   ("bbbx", "n:ok", "yes"), ("bbbb", "n:raise", "yes"), ("bbbb", "n:ok", "no"), ("bbbb", "n:ok", "raise"),
                   ("bbbb", "n:ok", "absent"), ("bbbb", "k1:ok", "yes"), ("bbbb", "s:ok", "yes"), ("bbbb", "w:ok", "yes"),
-                  ("bbbb", "k1:raise", "yes"), ("nbbb", "n:ok", "yes"), ("bbbb", "w:ok:4", "yes"), ("bbbb", "m:raise:4", "no"), ("bbbb", "w:ok:3", "yes")]
+                  ("bbbb", "k1:raise", "yes"), ("nbbb", "n:ok", "yes"), ("bbbb", "w:ok:4", "yes"), ("bbbb", "m:raise:4", "no"), ("bbbb", "w:ok:3", "yes"),
+                  ("bbbb", "n:raise.V0", "yes"), ("bbbb", "n:raise.K0", "yes"), ("bbbb", "n:ok", "raise.V0"),
+                  ("bbbb", "n:ok", "raise.A0"), ("bbbb", "n:ok", "raise.R0"), ("bbbb", "n:ok", "raise.K0"),
+                  ("bbbb", "n:ok", "raise.C0"), ("bbbb", "n:ok", "raise.Cm"), ("bybb", "n:ok", "yes"), ("bbzb", "n:ok", "yes"),
+                  ("bbbb", "k1:raise.A0", "raise.V0")]
+        posts = [None, "ok", "raise.V0"] if tier == "quick" else [None, "ok", "notag", "raise", "raise.V0"]
         holders = ["free", "held-low", "held-high", "held-twice"]
         reqs = [r for k in range(0, L + 1) for r in itertools.product([1, 2], repeat=k)]
         pres = [(0, 0), (1, 1)] if tier == "quick" else [(0, 0), (0, 1), (1, 0), (1, 1)]
         for req in reqs:
             for h1, h2 in itertools.product(holders, repeat=2):
                 for pre in pres:
-                    for cps, work, val in faults:
+                    for (cps, work, val), post in itertools.product(faults, posts):
+                        if post is not None and (h1, h2) not in (("free", "free"), ("held-low", "free"), ("free", "held-high")):
+                            continue          # the cell wrapper adds nothing lock-specific: fewer holder patterns
                         lines = ["cfg none none 3 priority", f"res 1 {pre[0]}", f"res 2 {pre[1]}"]
                         for o, r, h in ((2, 1, h1), (3, 2, h2)):
                             if h != "free":
@@ -118,7 +126,10 @@ class C14(CoordMixin, Prop):
                                     lines.append(f"acq {o} {r}")
                         lines.append("adv 5")
                         rs = ",".join(map(str, req)) if req else "-"
-                        lines.append(f"exec 1 3 {rs} {cps} {work} {val}")
+                        if post is None:
+                            lines.append(f"exec 1 3 {rs} {cps} {work} {val}")
+                        else:
+                            lines.append(f"cell 1 3 {rs} {cps} {work} {val} {post}")
                         lines.append("exec 1 3 1,2 bbbb n:ok yes")
                         cases.append({"lines": lines, "note": "exhaustive"})
         return [{"name": f"request lists of length <= {L} over 2 resources x foreign-holder patterns x every fault "
@@ -141,12 +152,12 @@ class C14(CoordMixin, Prop):
                 continue
             k = t[0]
             # id reuse while active: outside the quantifier, stop judging
-            if k in ("start", "exec") and len(t) > 1 and prev is not None and t[1] in prev["active"]:
+            if k in ("start", "exec", "cell") and len(t) > 1 and prev is not None and t[1] in prev["active"]:
                 break
-            if k == "exec" and len(t) == 7:
+            if (k == "exec" and len(t) == 7) or (k == "cell" and len(t) == 8):
                 op = t[1]
                 if "raised" in info and "success" not in info:
-                    out.append(Violation("returns", "execute_operation returns a CoordinationResult", o.split(" |")[0], idx))
+                    out.append(Violation("returns", "the call returns a result object", o.split(" |")[0], idx))
                 # 1. nothing owned, not active, not waiting, no edge
                 for r, l in st["locks"].items():
                     if l["owner"] == op:
@@ -194,12 +205,19 @@ class C14(CoordMixin, Prop):
                 for j, e in enumerate(log):
                     if e.startswith("val:") and "work:1" not in log[:j]:
                         out.append(Violation("validate_only_after_work", "work completed before validate_fn", f"{log}", idx))
-                # 5. success only if both succeeded
-                if info.get("success"):
-                    wok = t[5].split(":")[1] == "ok"
-                    vok = t[6] in ("absent", "yes")
-                    if not (wok and vok and "work:1" in log):
-                        out.append(Violation("success_iff_both", "success=False", f"success=True with work={t[5]} validate={t[6]}", idx))
+                # 5. success only if both succeeded — at every layer that reports a success flag
+                wok = t[5].split(":")[1] == "ok"
+                vok = t[6] in ("absent", "yes")
+                for layer, flag in (("CoordinationResult", info.get("coord_success")),
+                                    ("CellExecutionResult" if k == "cell" else "result", info.get("success"))):
+                    if flag and not (wok and vok and "work:1" in log):
+                        out.append(Violation("success_iff_both", "success=False",
+                                             f"{layer}.success=True with work={t[5]} validate={t[6]} log={log}", idx))
+                if k == "cell" and info.get("cell_success") and info.get("coord_success") is False:
+                    out.append(Violation("success_iff_both", "cell success only if the coordinated operation succeeded",
+                                         "CellExecutionResult.success=True, CoordinationResult.success=False", idx))
+                if k == "cell" and info.get("has_output") and not info.get("cell_success"):
+                    out.append(Violation("no_output_unless_success", "output None on failure", "output released", idx))
             # every exit path (complete / abort / kill / shutdown / watchdog): whoever is no longer active owns nothing
             if k != "cfg":
                 for r, l in st["locks"].items():
@@ -220,7 +238,7 @@ class C14(CoordMixin, Prop):
         return out
 
     def nontrivial(self, case, obs):
-        return any(l.startswith("exec") and not l.endswith("bbbb n:ok yes") for l in case["lines"])
+        return any(l.startswith(("exec", "cell")) and "bbbb n:ok yes" not in l for l in case["lines"])
 
 
 PROP = C14()
